@@ -801,3 +801,12 @@ def _shifts_group(nlayers):
 
 for _n in (2, 3, 4):
     _shifts_group(_n)
+
+# ----------------------------------------------------------------------------
+# callee contracts this property's proofs ASSUME are part of this check (modular verification carries the property only if the assumed contract is itself
+# discharged on the same tree): the groups of the property that establishes them run here as well, reported under this property when they fail.
+# the generators reach the periodic separation through System.dvect / System.dmag; System.py is one of this property's files
+from . import c02 as _c02
+for _g in _c02.GROUPS:
+    if _g.name in ('System.dvect_dmag',):
+        GROUPS.append(_g)
